@@ -22,7 +22,7 @@ forms coincide; everything else stays uninterpreted.
 from __future__ import annotations
 
 from .core import Undecided
-from .ratfun import Rat, Poly
+from .ratfun import Rat, Poly, SAtom
 
 ONE = Rat.const(1)
 ZERO = Rat.const(0)
@@ -83,6 +83,9 @@ def conj_scalar(r, real=()):
     m = {}
     for v in r.vars():
         if v in real:
+            continue
+        if isinstance(v, SAtom) and v[0] in ('norm', 'abs', 'real', 'imag',
+                                             'red', 'opnorm'):
             continue
         if isinstance(v, tuple) and len(v) == 2 and v[0] == 'conj':
             m[v] = Rat.var(v[1])
